@@ -99,6 +99,8 @@ fn check_value_inner(loc: &Locale, case: &Value, st: &mut Stats, mode: Count) {
         st.class("value-with-extensions");
         st.count(mode, hash_str(&case.to_string()), || case.clone());
     }
+    // writes into failing sinks first: the renderings compared below must not depend on them
+    let _ = guard(|| values::poison_display(loc, &loc.to_string()));
     let li = loc.id.clone();
     let up: Locale = Locale::from(li.clone());
     if up.id != li || up.extensions != ExtensionsMap::default() || !up.extensions.is_empty() || up.to_string() != li.to_string() {
